@@ -611,7 +611,7 @@ def has_side_effect(node: ast.AST, safe_callable_whitelist: Collection[str] = fr
     if isinstance(node, ast.For):
         return any(
             has_side_effect(item, safe_callable_whitelist)
-            for item in itertools.chain([node.target], [node.iter], node.body)
+            for item in itertools.chain([node.target], [node.iter], node.body, node.orelse)
         )
 
     if isinstance(node, ast.Lambda):
@@ -690,7 +690,15 @@ def has_side_effect(node: ast.AST, safe_callable_whitelist: Collection[str] = fr
             has_side_effect(child, safe_callable_whitelist) for child in (node.lower, node.upper)
         )
 
-    if isinstance(node, (ast.DictComp)) and has_side_effect(node.value, safe_callable_whitelist):
+    if isinstance(node, (ast.DictComp)) and (
+        has_side_effect(node.key, safe_callable_whitelist)
+        or has_side_effect(node.value, safe_callable_whitelist)
+    ):
+        return True
+
+    if isinstance(node, (ast.SetComp, ast.ListComp, ast.GeneratorExp)) and has_side_effect(
+        node.elt, safe_callable_whitelist
+    ):
         return True
 
     if isinstance(node, (ast.SetComp, ast.ListComp, ast.GeneratorExp, ast.DictComp)):
